@@ -43,6 +43,9 @@ def cases(draw, closed_only, allow_verify):
         "wipe": draw(st.sampled_from([False, False, False, True])),
         # part of the pre-existing destination contents is delivered through a second store handle
         "other_handle": draw(st.booleans()),
+        # objects that leave the source between the status phase and the upload (another process's gc):
+        # indices into the ids that have to move; removed from the validate_status hook
+        "vanish": sorted(draw(st.sets(st.integers(0, 15), max_size=draw(st.sampled_from([0, 0, 0, 1, 2]))))),
         "dst_state": draw(st.booleans()),
         "src_state": draw(st.sampled_from([False, False, True])),
     }
@@ -255,6 +258,20 @@ def execute(case, ctx, d, monitor_closure=True):  # noqa: C901, PLR0912, PLR0915
         data = collect([idx], "remote", push=True)
         return push(data, jobs=case["jobs"])
 
+    o.vanished = set()
+
+    def vanish_hook(_status):
+        # TOCTOU: the objects are in the source when status runs and gone when the upload starts
+        if staging_mode or o.vanished or not case.get("vanish"):
+            return
+        for i in case["vanish"]:
+            oid = moving[i % len(moving)]
+            pth = src.oid_to_path(oid)
+            if not oid.endswith(".dir") and os.path.exists(pth):
+                os.chmod(pth, 0o644)
+                os.unlink(pth)
+                o.vanished.add(oid)
+
     def do_transfer(inj):
         if via_push:
             o.push_counts.append(do_push())
@@ -264,6 +281,8 @@ def execute(case, ctx, d, monitor_closure=True):  # noqa: C901, PLR0912, PLR0915
             kw["dest_index"] = index
         if not staging_mode:
             kw["cache_odb"] = None
+        if case.get("vanish"):
+            kw["validate_status"] = vanish_hook
         return transfer(src, dst, set(req), **kw)
 
     o.result = None
@@ -334,6 +353,8 @@ def classes_of(case, o):
         cl.append("dst-nonempty")
     if case.get("dst_state"):
         cl.append("dst-has-state")
+    if getattr(o, "vanished", None):
+        cl.append("source-object-vanished-after-status")
     if case.get("other_handle") and case["dst_files"]:
         cl.append("pre-existing-via-second-handle")
     if getattr(o, "via_push", False):
